@@ -113,6 +113,10 @@ def _change_pivot(
     Returns:
         A tuple containing the new dr, new phi0, new dz, and the transformed error matrix (if available).
     """
+    # Signed radius as in BOSS `Helix::pivot` (rho = alpha / kappa with alpha < 0 in the BESIII
+    # field): positive for negatively charged tracks, negative for positively charged ones.
+    r = np.copysign(r, -kappa)
+
     if isinstance(old_pivot, vector.VectorObject3D):
         old_dist = vector.obj(rho=old_dr + r, phi=old_phi0)
     elif isinstance(old_pivot, vector.VectorNumpy3D):
@@ -124,8 +128,9 @@ def _change_pivot(
 
     new_dist: vector.Vector2D = center - new_pivot.to_2D()
 
-    new_dr = new_dist.rho - r
-    new_phi0 = new_dist.phi % (2 * np.pi)
+    # (cos(new_phi0), sin(new_phi0)) = (center - new_pivot) / r, normalised
+    new_dr = np.sign(r) * new_dist.rho - r
+    new_phi0 = (new_dist.phi + (r < 0) * np.pi) % (2 * np.pi)
 
     if isinstance(new_phi0, np.ndarray):
         dphi = np.unwrap(new_phi0 - old_phi0)
